@@ -377,6 +377,8 @@ class SymExec:
         return paths
 
     def _assign(self, target, value, p, st):
+        if getattr(value, '_n', 0) > BIG_VALUE:
+            value = summarise(value)
         if isinstance(target, ast.Name):
             p.env[target.id] = value
             # attribute facts about the old binding are stale
@@ -419,6 +421,10 @@ class SymExec:
                     elts = list(cur.elts)
                     elts[idx_.value] = value
                     p.env[d] = ast.List(elts=elts, ctx=ast.Load())
+                elif cur is not None and idx_ is not None:
+                    # element / slice store with a symbolic index: "cur updated at idx with value" - the
+                    # container keeps every dependency it had and gains those of the value
+                    p.env[d] = ast.Call(func=ast.Name(id='_upd', ctx=ast.Load()), args=[cur, idx_, value], keywords=[])
                 else:
                     p.env.pop(d, None)      # element store: the container is no longer a known expression
                 p.stores.append((d + '[...]', value, st))
@@ -757,8 +763,12 @@ class SymExec:
             return out
         if isinstance(st, ast.AugAssign):
             out = []
-            cur = ast.Name(id=st.target.id, ctx=ast.Load()) if isinstance(st.target, ast.Name) else \
-                copy_replace(st.target, lambda n: None)
+            if isinstance(st.target, ast.Subscript):
+                # X[i] op= v : the old element is named, not spelled out (it would double the expression)
+                cur = ast.Name(id='_old', ctx=ast.Load())
+            else:
+                cur = ast.Name(id=st.target.id, ctx=ast.Load()) if isinstance(st.target, ast.Name) else \
+                    copy_replace(st.target, lambda n: None)
             if hasattr(cur, 'ctx'):
                 cur.ctx = ast.Load()
             e = ast.BinOp(left=cur, op=st.op, right=st.value)
@@ -859,6 +869,38 @@ def _each_of(v):
 
 
 _SIMPLIFY_DEPTH = 0
+BIG_VALUE = 4000        # nodes; larger values are kept as dependency summaries
+
+
+def summarise(e):
+    """_dep(<leaf atoms>): a value too large to carry around keeps what it depends on (attribute chains,
+    names, loop indices, functions applied), not how"""
+    leaves = {}
+    todo = [e]
+    seen = set()
+    while todo:
+        n = todo.pop()
+        if id(n) in seen:
+            continue
+        seen.add(id(n))
+        if isinstance(n, ast.Call) and isinstance(n.func, ast.Name) and n.func.id == '_dep':
+            for a in n.args:
+                leaves.setdefault(norm(a), a)
+            continue
+        if isinstance(n, ast.Attribute):
+            d = dotted(n)
+            if d is not None:
+                leaves.setdefault(d, n)
+                continue
+        if isinstance(n, ast.Name):
+            leaves.setdefault(n.id, n)
+            continue
+        todo.extend(ast.iter_child_nodes(n))
+    out = ast.Call(func=ast.Name(id='_dep', ctx=ast.Load()), args=[leaves[k] for k in sorted(leaves)], keywords=[])
+    out._simp = True
+    out._n = 1 + len(leaves)
+    return out
+
 
 
 def _neg_const(n):
@@ -1051,6 +1093,8 @@ def simplify(e):
     def up(n):
         if not isinstance(n, ast.AST):
             return n
+        if getattr(n, '_simp', False):
+            return n                # already in normal form (shared, never modified in place)
         new = n.__class__()
         for fld, val in ast.iter_fields(n):
             if isinstance(val, list):
@@ -1061,7 +1105,16 @@ def simplify(e):
             if hasattr(n, a):
                 setattr(new, a, getattr(n, a))
         r = fn(new)
-        return r if r is not None else new
+        res = r if r is not None else new
+        try:
+            res._simp = True
+            if not hasattr(res, '_n'):
+                res._n = 1 + sum(getattr(c, '_n', 1) for c in ast.iter_child_nodes(res))
+            if res._n > 400000:
+                raise AnalysisError('symbolic expression too large (%d nodes)' % res._n)
+        except AttributeError:
+            pass
+        return res
     global _SIMPLIFY_DEPTH
     _SIMPLIFY_DEPTH += 1
     try:
